@@ -186,6 +186,7 @@ type Script struct {
 	strConsts map[string]Term // literal -> const
 	strOrder  []string
 	mathInts  bool
+	nativeStr bool // strings are SMT-LIB strings (requires mathematical integers)
 	axioms    []string // global quantified axioms (always included)
 }
 
@@ -322,12 +323,30 @@ func (s *Script) uintLit(u uint64, width int) Term {
 func (s *Script) header() string {
 	var b strings.Builder
 	b.WriteString("(set-option :produce-models true)\n(set-logic ALL)\n")
-	b.WriteString("(declare-sort Ref 0)\n(declare-sort Str 0)\n(declare-sort Fn 0)\n(declare-sort Flt 0)\n(declare-sort Any 0)\n")
-	b.WriteString("(declare-fun nil_ref () Ref)\n(declare-fun nil_fn () Fn)\n(declare-fun str_empty () Str)\n(declare-fun any_nil () Any)\n")
+	if s.nativeStr {
+		b.WriteString("(declare-sort Ref 0)\n(define-sort Str () String)\n(declare-sort Fn 0)\n(declare-sort Flt 0)\n(declare-sort Any 0)\n")
+		b.WriteString("(declare-fun nil_ref () Ref)\n(declare-fun nil_fn () Fn)\n(define-fun str_empty () Str \"\")\n(declare-fun any_nil () Any)\n")
+	} else {
+		b.WriteString("(declare-sort Ref 0)\n(declare-sort Str 0)\n(declare-sort Fn 0)\n(declare-sort Flt 0)\n(declare-sort Any 0)\n")
+		b.WriteString("(declare-fun nil_ref () Ref)\n(declare-fun nil_fn () Fn)\n(declare-fun str_empty () Str)\n(declare-fun any_nil () Any)\n")
+	}
 	idx := s.idxSort()
 	fmt.Fprintf(&b, "(declare-datatypes ((Slice 0)) (((mk_slice (sl_ptr Ref) (sl_off %s) (sl_len %s) (sl_cap %s)))))\n", idx, idx, idx)
 	b.WriteString("(declare-datatypes ((Iface 0)) (((mk_iface (if_tag Int) (if_val Any)))))\n")
-	fmt.Fprintf(&b, "(declare-fun strlen (Str) %s)\n", idx)
+	if s.nativeStr {
+		b.WriteString("(define-fun strlen ((s Str)) Int (str.len s))\n")
+		b.WriteString("(define-fun str_concat ((a Str) (b Str)) Str (str.++ a b))\n")
+		b.WriteString("(define-fun str_lt ((a Str) (b Str)) Bool (str.< a b))\n")
+		b.WriteString("(define-fun str_at ((s Str) (i Int)) Int (str.to_code (str.at s i)))\n")
+		b.WriteString("(define-fun str_sub ((s Str) (lo Int) (hi Int)) Str (str.substr s lo (- hi lo)))\n")
+		b.WriteString("(define-fun pf_strings.HasPrefix ((s Str) (p Str)) Bool (str.prefixof p s))\n")
+		b.WriteString("(define-fun pf_strings.HasSuffix ((s Str) (p Str)) Bool (str.suffixof p s))\n")
+		b.WriteString("(define-fun pf_strings.Contains ((s Str) (p Str)) Bool (str.contains s p))\n")
+		b.WriteString("(define-fun pf_strings.TrimSuffix ((s Str) (p Str)) Str (ite (str.suffixof p s) (str.substr s 0 (- (str.len s) (str.len p))) s))\n")
+		b.WriteString("(define-fun pf_strings.TrimPrefix ((s Str) (p Str)) Str (ite (str.prefixof p s) (str.substr s (str.len p) (- (str.len s) (str.len p))) s))\n")
+	} else {
+		fmt.Fprintf(&b, "(declare-fun strlen (Str) %s)\n", idx)
+	}
 	for _, d := range s.sortDecls {
 		b.WriteString(d)
 		b.WriteString("\n")
@@ -335,6 +354,19 @@ func (s *Script) header() string {
 	for _, d := range s.funDecls {
 		b.WriteString(d)
 		b.WriteString("\n")
+	}
+	if s.nativeStr {
+		for _, lit := range s.strOrder {
+			t := s.strConsts[lit]
+			if lit != "" {
+				fmt.Fprintf(&b, "(define-fun %s () Str %s)\n", t.S, smtStringLit(lit))
+			}
+		}
+		for _, a := range s.axioms {
+			b.WriteString(a)
+			b.WriteString("\n")
+		}
+		return b.String()
 	}
 	// string literal constants: pairwise distinct, known lengths
 	var names []string
@@ -424,3 +456,22 @@ func (s *Script) query(o *Obligation, wantModel bool) string {
 func tokens(text string) []string {
 	return strings.FieldsFunc(text, func(r rune) bool { return r == '(' || r == ')' || r == ' ' || r == '\n' || r == '\t' })
 }
+
+func smtStringLit(x string) string {
+	var b strings.Builder
+	b.WriteString("\"")
+	for _, r := range x {
+		switch {
+		case r == '"':
+			b.WriteString("\"\"")
+		case r >= 0x20 && r < 0x7f && r != '\\':
+			b.WriteRune(r)
+		default:
+			fmt.Fprintf(&b, "\\u{%x}", r)
+		}
+	}
+	b.WriteString("\"")
+	return b.String()
+}
+
+var nativeStrFuns = []string{"strlen", "str_concat", "str_lt", "str_at", "str_sub", "pf_strings.HasPrefix", "pf_strings.HasSuffix", "pf_strings.Contains", "pf_strings.TrimSuffix", "pf_strings.TrimPrefix"}
